@@ -525,7 +525,7 @@ func (m *Machine) call(fn Value, args []Value) []Value {
 	case *Table:
 		if f.Meta != nil {
 			if h := f.Meta.Get("__call"); h != nil {
-				m.pushCtx("meta")
+				m.pushCtx("callmeta")
 				defer m.popCtx()
 				return m.call(h, append([]Value{fn}, args...))
 			}
@@ -545,7 +545,9 @@ func (m *Machine) execBlock(body []ir.Stmt, sc *Scope, fr *frame) flow {
 // level, so closures created earlier keep resolving names lexically.
 func (m *Machine) execBlockS(body []ir.Stmt, sc *Scope, fr *frame) (flow, *Scope) {
 	i := 0
+	at := make([]*Scope, len(body)) // the scope in effect when statement i was (last) reached
 	for i < len(body) {
+		at[i] = sc
 		switch d := body[i].(type) {
 		case *ir.Local:
 			sc = newScope(sc)
@@ -575,7 +577,9 @@ func (m *Machine) execBlockS(body []ir.Stmt, sc *Scope, fr *frame) (flow, *Scope
 			// of a local (the generator never does). Locals declared after the
 			// label in this block are dropped when jumping backward.
 			if found <= i {
-				dropLocalsAfter(sc, body, found)
+				// the locals declared after the label go out of scope: names they shadowed are
+				// visible again, and re-execution declares fresh variables
+				sc = at[found]
 			}
 			i = found + 1
 		default:
@@ -583,14 +587,6 @@ func (m *Machine) execBlockS(body []ir.Stmt, sc *Scope, fr *frame) (flow, *Scope
 		}
 	}
 	return flow{}, sc
-}
-
-// dropLocalsAfter removes from sc the locals declared by statements after index
-// `at` (a backward goto leaves their scope; re-execution declares fresh ones).
-func dropLocalsAfter(sc *Scope, body []ir.Stmt, at int) {
-	// Fresh cells are created by re-executing the Local statements; nothing to
-	// remove explicitly because declare() replaces the cell. Closures that
-	// captured the old cells keep them, which is exactly Lua's behaviour.
 }
 
 func (m *Machine) assignTo(t ir.Expr, v Value, sc *Scope, fr *frame, pre []Value) {
